@@ -138,6 +138,9 @@ def _worker(args):
             if j[0] == jobname:
                 r = j[1](**dict(j[2], seed=seed) if 'seed' in inspect.signature(j[1]).parameters else j[2])
                 r.wall_s = time.time() - t0
+                r.name = jobname
+                for v in r.violations:
+                    v['job'] = jobname
                 return r.to_json()
         raise KeyError(jobname)
     except BaseException as e:   # noqa
